@@ -14,4 +14,5 @@ package serialize
 //@   requires envReceiver(envelop) != nil ==> !nilptr(envReceiver(envelop))
 //@ func DecodeEnvelopWithRemoting
 //@   callspec ReadInto ensures messages.regwf()
+//@   callspec ReadInto requires len(arg1) == 7 && arg1[2] == iface(&system) && arg1[3] == iface(&senderAddr) && arg1[4] == iface(&senderPath) && arg1[5] == iface(&receiverAddr) && arg1[6] == iface(&receiverPath)
 //@   requires messages.regwf()
